@@ -23,6 +23,11 @@ def main():
     if a.pid not in MODULES:
         print("no check for %s" % a.pid)
         return 2
+    # every temporary file or directory of this run - the harness's own, TLC's, and what the code under test makes
+    # (launch()'s data directories, onion service directories) - lives in one scratch directory removed at exit
+    import tempfile
+    import tlc
+    tempfile.tempdir = tlc.scratch()
     mod = importlib.import_module(MODULES[a.pid])
     if a.replay:
         return mod.replay(a.pid, a.replay)
